@@ -8,6 +8,9 @@ Four passes (all on the real dclab code, datasets are RTDC_Dict instances):
  fake    correspondence  RTDCBase.get_kde_scatter + kde_methods.ignore_nan_inf
                          + _apply_scale with an exact stand-in estimator vs
                          Model/C12.v (scatter_flat)
+ qreal   correspondence  get_quantile_levels on real KDE grids of the meta
+                         cases vs perc_lin of the model on the bilinearly
+                         interpolated densities (exact dyadic integers)
  warm    property oracle  a few datasets of 1200-3000 events, 2-4 filter
                          states each (interior exclusions, partly of equal
                          count) analysed in ONE process WITHOUT clearing
@@ -47,7 +50,11 @@ RULE = ("datasets of 0..150 events with 2-3 float features (dyadic values "
         "statistics method x feature, every KDE type x linear/log scale x "
         "implicit/explicit positions, contour grids with default and "
         "explicit accuracies, quantile levels, downsampling sizes around "
-        "the selected count, tsv export; plus a few datasets of 1200-3000 "
+        "the selected count, tsv export, get_statistics(ds) over every "
+        "registered method x every scalar feature (incl. index, emodulus), "
+        "find_contours_level at the reported levels (open and closed); "
+        "box filters that exclude exactly the non-positive values before a "
+        "log scale; plus a few datasets of 1200-3000 "
         "events with sequences of 2-4 filter states analysed with a warm "
         "memo cache. A case is non-trivial when the "
         "filter excludes at least one and selects at least one event; "
@@ -85,6 +92,15 @@ TRUSTED_BASE = [
     "kde_multivariate: statsmodels' _adjust_shape is modelled and compared "
     "exactly (adjust_flat); that kde_multivariate hands it an (N,2) array "
     "(fix e62c3b0) is established only by the differential oracle",
+    "statistics method inventory: harness/translators/stat_methods.py "
+    "lists the Statistics(...) registrations of the tree under test by ast "
+    "(name, req_feature, order) into coq/Gen/StatMethods.v; "
+    "C12_statistics_method_inventory compares it with the model's table "
+    "(fail closed); how a method computes its value is not part of the table",
+    "find_contours_level is an oracle check only (vertices on the level "
+    "within 1e-9 * max density by independent bilinear interpolation, inside "
+    "the grid, closed when closed=True); skimage's marching squares is not "
+    "modelled",
     "quantile oracle: densities at the events are recomputed with an "
     "independent bilinear interpolation; counts use a tolerance of 1e-9 * "
     "max density; events within 1e-9 (relative) of the border of the grid "
@@ -104,7 +120,7 @@ SCALES = ["linear", "log"]
 HUGE = 2 ** 70            # in units of 1/8; 2^67 as a float, exact
 
 # cases per pass: meta, stats, fake, perc, quant
-SIZES = {"quick": (96, 240, 240, 240, 120),
+SIZES = {"quick": (80, 240, 240, 240, 120),
          "thorough": (1500, 3000, 3000, 3000, 1500)}
 N_WARM = {"quick": 6, "thorough": 48}
 
@@ -196,8 +212,19 @@ def gen_filter(rng, n, feats):
     names = sorted(feats)
     kind = rng.choice(["manual", "manual", "manual", "box", "box", "polygon",
                        "invalid", "limit", "none", "disabled", "empty",
-                       "single", "mixed"])
+                       "single", "mixed", "posbox", "posbox"])
     f = dict(kind=kind)
+    if kind == "posbox" and n:
+        # non-positive values (log -> nan / -inf) on events that a box filter
+        # then excludes: the selected events are all positive
+        nm = rng.choice(names)
+        feats[nm] = gen_values(rng, n, rng.choice(["spread", "cluster"]),
+                               False)
+        for i in range(n):
+            if rng.random() < .1:
+                feats[nm][i] = [0, 0]
+        top = max([k for t, k in feats[nm]] + [8])
+        f["box"] = [nm, 1, max(top, 2)]
     if kind in ("manual", "mixed", "disabled"):
         p = rng.choice([.1, .5, .5, .9])
         f["manual"] = [1 if rng.random() < p else 0 for _ in range(n)]
@@ -277,8 +304,7 @@ def build_filtered(case):
     data = {k: dec(v) for k, v in case["feats"].items()}
     ds = dclab.new_dataset(data)
     flt = case["filt"]
-    if case["par"].get("flow") is not None:
-        ds.config["setup"]["flow rate"] = case["par"]["flow"]
+    configure(ds, case["par"].get("flow"))
     if "manual" in flt:
         ds.filter.manual[:] = np.array(flt["manual"], dtype=bool)
     if "box" in flt:
@@ -300,12 +326,27 @@ def build_filtered(case):
     return ds
 
 
+def configure(ds, flow):
+    """metadata that makes the ancillary scalar features (emodulus, ...)
+    available; identical for the filtered/restricted/adversarial datasets"""
+    if flow is not None:
+        ds.config["setup"]["flow rate"] = flow
+        ds.config["setup"].update({"channel width": 20.0,
+                                   "medium": "CellCarrier",
+                                   "temperature": 23.0})
+        ds.config["imaging"]["pixel size"] = 0.34
+        ds.config["calculation"].update({
+            "emodulus lut": "LE-2D-FEM-19",
+            "emodulus medium": "CellCarrier",
+            "emodulus temperature": 23.0,
+            "emodulus viscosity model": "buyukurganci-2022"})
+
+
 def build_from_arrays(data, mask=None, flow=None):
     import dclab
     import numpy as np
     ds = dclab.new_dataset({k: np.array(v) for k, v in data.items()})
-    if flow is not None:
-        ds.config["setup"]["flow rate"] = flow
+    configure(ds, flow)
     if mask is not None:
         ds.filter.manual[:] = mask
     ds.apply_filter()
@@ -347,9 +388,20 @@ def canon(x):
     return ["o", repr(x)]
 
 
+LOGWARN = []      # warnings about np.log that escaped from dclab
+
+
 def guarded(fn):
+    import warnings
     try:
-        return ("ok", fn())
+        with warnings.catch_warnings(record=True) as w:
+            warnings.simplefilter("always")
+            res = fn()
+        for x in w:
+            if "np.log" in str(x.message) or "in log" in str(x.message):
+                LOGWARN.append("%s: %s" % (x.category.__name__,
+                                           str(x.message)[:60]))
+        return ("ok", res)
     except Exception as e:                     # noqa: compare error classes
         return ("exc", type(e).__name__)
 
@@ -373,12 +425,16 @@ def observe(ds, case, scratch, tag, sel_of=None):
     from dclab import statistics, kde_contours
     from dclab.cached import Cache
     Cache.clear_cache()
+    del LOGWARN[:]
     par = case["par"]
     names = sorted(case["feats"])
     xax, yax = par["xax"], par["yax"]
     obs = {}
     obs["stats"] = guarded(lambda: statistics.get_statistics(
         ds, features=names))
+    # every registered method x every scalar feature of the dataset
+    # (innate and ancillary ones, e.g. index, emodulus)
+    obs["stats_all"] = guarded(lambda: statistics.get_statistics(ds))
     pos = [dec(par["pos"][0]), dec(par["pos"][1])]
     for kt in KDE_TYPES:
         for xs in SCALES:
@@ -424,6 +480,9 @@ def observe(ds, case, scratch, tag, sel_of=None):
                 r = ("ok", (x, y))
             obs[key] = r
     obs["tsv"] = guarded(lambda: tsv_rows(ds, names, scratch, tag))
+    # warnings of the log transformation that reach the caller: must not
+    # depend on excluded (e.g. non-positive) values
+    obs["logwarn"] = ("ok", sorted(set(LOGWARN)))
     return obs
 
 
@@ -442,12 +501,17 @@ def compare_obs(oa, ob, la, lb, skip=()):
             if a[1] != b[1]:
                 fails.append("%s: %s raises %s, %s raises %s" % (
                     k, la, a[1], lb, b[1]))
-        elif k == "stats":
+        elif k in ("stats", "stats_all"):
             ha, va = a[1]
             hb, vb = b[1]
+            if ha != hb:
+                fails.append("%s: headers differ: %r vs %r" % (k, ha, hb))
+                continue
             for h, x, y in zip(ha, va, vb):
                 if h == "%-gated":
                     continue
+                if lb == "restricted" and "Index" in h:
+                    continue       # event numbers are renumbered there
                 if canon(float(x)) != canon(float(y)):
                     fails.append("statistic %r: %s dataset %r, %s dataset %r"
                                  % (h, la, float(x), lb, float(y)))
@@ -581,6 +645,70 @@ def check_statistics(case, obs, mask):
     return fails
 
 
+def check_statistics_all(ds, obs, mask, enable):
+    """get_statistics(ds) (all registered methods x all scalar features)
+    against the definitions evaluated on the finite selected values of
+    ds[feature]"""
+    import numpy as np
+    from dclab import definitions as dfn
+    r = obs["stats_all"]
+    if r[0] != "ok":
+        return ["get_statistics(ds) raised " + r[1]]
+    head, vals = r[1]
+    got = dict(zip(head, [float(v) for v in vals]))
+    fails = []
+    nfeat = 0
+    for feat in ds.features_scalar:
+        label = dfn.get_feature_label(feat, rtdc_ds=ds)
+        arr = np.asarray(ds[feat], dtype=np.float64)
+        sel = arr[mask] if enable else arr
+        sel = sel[np.isfinite(sel)]
+        nfeat += 1
+        for mt in ("Mean", "Median", "Mode", "SD"):
+            if "%s %s" % (mt, label) not in got:
+                fails.append("no statistic %r %r reported" % (mt, label))
+        if fails:
+            continue
+        g = {mt: got["%s %s" % (mt, label)]
+             for mt in ("Mean", "Median", "Mode", "SD")}
+        if sel.size == 0:
+            for mt, v in g.items():
+                if not math.isnan(v):
+                    fails.append("%s %s = %r with no finite selected value"
+                                 % (mt, feat, v))
+            continue
+        if float(np.max(np.abs(sel))) > 1e150:
+            continue                      # squares overflow in binary64
+        fr = sorted(fractions.Fraction(float(v)) for v in sel)
+        n = len(fr)
+        mean = sum(fr) / n
+        med = fr[n // 2] if n % 2 else (fr[n // 2 - 1] + fr[n // 2]) / 2
+        var = sum((x - mean) ** 2 for x in fr) / n
+        iqr = frac_percentile(fr, 3, 4) - frac_percentile(fr, 1, 4)
+        scale = float(np.max(np.abs(sel))) + 1e-300
+        if not close(g["Mean"], float(mean), 1e-12, 1e-13 * scale):
+            fails.append("Mean %s = %r, definition %r" % (
+                feat, g["Mean"], float(mean)))
+        if not close(g["Median"], float(med), 1e-15, 1e-15 * scale):
+            fails.append("Median %s = %r, definition %r" % (
+                feat, g["Median"], float(med)))
+        if not close(g["SD"], math.sqrt(var), 1e-9, 1e-9 * scale):
+            fails.append("SD %s = %r, definition %r" % (
+                feat, g["SD"], math.sqrt(var)))
+        if float(iqr) <= 1e-12 * scale:
+            if iqr == 0 and not math.isnan(g["Mode"]):
+                # np.percentile may leave a rounding residue in the iqr
+                if not (abs(g["Mode"]) <= scale * 2):
+                    fails.append("Mode %s = %r for a zero inter-quartile "
+                                 "range" % (feat, g["Mode"]))
+            continue
+        mv, reliable, bs = mode_reference(dict(data=sel, iqr=iqr, n=n))
+        if reliable and not close(g["Mode"], mv, 1e-9, 1e-9 * scale):
+            fails.append("Mode %s = %r, definition %r" % (
+                feat, g["Mode"], mv))
+    return fails, nfeat
+
+
 def close(a, b, rtol=0.0, atol=0.0):
     if math.isnan(a) or math.isnan(b):
         return math.isnan(a) and math.isnan(b)
@@ -689,6 +817,7 @@ def check_reference(case, obs, mask):
     par = case["par"]
     fails = []
     counts = {}
+    qreal = []
     xsel = dec(case["feats"][par["xax"]])[mask]
     ysel = dec(case["feats"][par["yax"]])[mask]
     pos = [dec(par["pos"][0]), dec(par["pos"][1])]
@@ -792,6 +921,20 @@ def check_reference(case, obs, mask):
                 counts["quantile"] = counts.get("quantile", 0) + 1
                 if dd:
                     fails.append("quantile/%s: %s" % (key, dd))
+                # contours at the reported levels
+                levs = [float(v) for v in np.atleast_1d(qr[1])] \
+                    if par["normalize"] else [0.5, 0.1]
+                dd, nc = check_contours(X, Y, Z, levs[:2])
+                counts["contours"] = counts.get("contours", 0) + nc
+                if dd:
+                    fails.append("contours/%s: %s" % (key, dd))
+                if xs == "linear" and ys == "linear":
+                    rec = quantile_record(X, Y, Z, xsel, ysel, par["q"][0],
+                                          par["q"][1])
+                    if rec is not None:
+                        rec["key"] = key
+                        qreal.append(rec)
+    counts["qreal"] = qreal
     return fails, counts
 
 
@@ -799,20 +942,117 @@ def bilinear(gx, gy, Z, px, py):
     """independent bilinear interpolation on a rectilinear grid (ascending
     gx, gy); 0 outside"""
     import numpy as np
+    px = np.asarray(px, dtype=np.float64)
+    py = np.asarray(py, dtype=np.float64)
     out = np.zeros(px.shape)
-    for i in range(px.size):
-        x, y = px[i], py[i]
-        if not (gx[0] <= x <= gx[-1] and gy[0] <= y <= gy[-1]):
-            continue
-        a = min(max(int(np.searchsorted(gx, x, side="right")) - 1, 0),
-                gx.size - 2)
-        b = min(max(int(np.searchsorted(gy, y, side="right")) - 1, 0),
-                gy.size - 2)
-        tx = (x - gx[a]) / (gx[a + 1] - gx[a])
-        ty = (y - gy[b]) / (gy[b + 1] - gy[b])
-        out[i] = ((1 - tx) * (1 - ty) * Z[a, b] + tx * (1 - ty) * Z[a + 1, b]
-                  + (1 - tx) * ty * Z[a, b + 1] + tx * ty * Z[a + 1, b + 1])
+    ins = (px >= gx[0]) & (px <= gx[-1]) & (py >= gy[0]) & (py <= gy[-1])
+    if not ins.any():
+        return out
+    x, y = px[ins], py[ins]
+    a = np.clip(np.searchsorted(gx, x, side="right") - 1, 0, gx.size - 2)
+    b = np.clip(np.searchsorted(gy, y, side="right") - 1, 0, gy.size - 2)
+    tx = (x - gx[a]) / (gx[a + 1] - gx[a])
+    ty = (y - gy[b]) / (gy[b + 1] - gy[b])
+    out[ins] = ((1 - tx) * (1 - ty) * Z[a, b] + tx * (1 - ty) * Z[a + 1, b]
+                + (1 - tx) * ty * Z[a, b + 1] + tx * ty * Z[a + 1, b + 1])
     return out
+
+
+def check_contours(X, Y, Z, rel_levels):
+    """find_contours_level: every vertex of every contour lies inside the
+    grid and on the level (bilinear density = level * max within 1e-9 * max;
+    marching squares interpolates linearly along grid edges); with
+    closed=True every contour is a closed curve and vertices on the border
+    of the grid have a density >= level; with closed=False a contour is
+    closed or ends on the border.  Returns (failure or None, #contours)."""
+    import numpy as np
+    from dclab import kde_contours
+    gx, gy = X[:, 0], Y[0, :]
+    if gx.size < 2 or gy.size < 2 or not np.all(np.isfinite(Z)) or \
+            not (np.all(np.diff(gx) > 0) and np.all(np.diff(gy) > 0)) or \
+            not (np.all(np.isfinite(gx)) and np.all(np.isfinite(gy))):
+        return None, 0
+    top = float(Z.max())
+    if not top > 0 or Z.size > 40000:
+        return None, 0
+    tol = 1e-9 * top
+    ncont = 0
+    for lev in rel_levels:
+        if not 0 < lev < 1:
+            continue
+        for closed in (False, True):
+            try:
+                conts = kde_contours.find_contours_level(Z, X, Y, lev,
+                                                         closed=closed)
+            except Exception as e:
+                return ("find_contours_level(level=%r, closed=%r) raised %r"
+                        % (lev, closed, e)), ncont
+            for cc in conts:
+                ncont += 1
+                cx, cy = cc[:, 0], cc[:, 1]
+                if not (np.all(np.isfinite(cc)) and cx.min() >= gx[0]
+                        and cx.max() <= gx[-1] and cy.min() >= gy[0]
+                        and cy.max() <= gy[-1]):
+                    return ("level %r closed=%r: contour leaves the grid"
+                            % (lev, closed)), ncont
+                d = bilinear(gx, gy, Z, cx, cy)
+                border = ((cx == gx[0]) | (cx == gx[-1]) | (cy == gy[0])
+                          | (cy == gy[-1]))
+                inner = ~border
+                if np.any(np.abs(d[inner] - lev * top) > tol):
+                    j = int(np.argmax(np.abs(d[inner] - lev * top)))
+                    return ("level %r closed=%r: vertex (%r, %r) has density"
+                            " %r, the level is %r" % (
+                                lev, closed, float(cx[inner][j]),
+                                float(cy[inner][j]), float(d[inner][j]),
+                                lev * top)), ncont
+                is_closed = bool(np.all(cc[0] == cc[-1]))
+                if closed:
+                    if np.any(d[border] < lev * top - tol):
+                        return ("level %r closed=True: border vertex below "
+                                "the level" % lev), ncont
+                    if not is_closed:
+                        return ("level %r closed=True: contour is not a "
+                                "closed curve" % lev), ncont
+                elif not is_closed and not (border[0] and border[-1]):
+                    return ("level %r closed=False: open contour ends "
+                            "inside the grid" % lev), ncont
+    return None, ncont
+
+
+def quantile_record(X, Y, Z, xsel, ysel, a, b):
+    """get_quantile_levels on a real KDE vs the exact linear-interpolation
+    percentile (Model/C12.v:perc_lin) of the densities interpolated
+    bilinearly at the events, as exact dyadic integers"""
+    import numpy as np
+    from dclab import kde_contours
+    gx, gy = X[:, 0], Y[0, :]
+    if gx.size < 2 or gy.size < 2 or not np.all(np.isfinite(Z)) or \
+            not (np.all(np.diff(gx) > 0) and np.all(np.diff(gy) > 0)) or \
+            gx.max() <= 0 or gy.max() <= 0:
+        return None
+    good = np.isfinite(xsel) & np.isfinite(ysel)
+    px, py = xsel[good], ysel[good]
+    if px.size == 0:
+        return None
+    for g, p in ((gx, px), (gy, py)):
+        for edge in (g[0], g[-1]):
+            # events one rounding step beside the border: skip the case
+            if np.any((p != edge) & (np.abs(p - edge) <= 1e-9 * abs(edge))):
+                return None
+    try:
+        lev = float(kde_contours.get_quantile_levels(
+            Z, X, Y, xsel, ysel, q=a / b, normalize=False))
+    except Exception:
+        return None
+    dp = bilinear(gx, gy, Z, px, py)
+    fr = [fractions.Fraction(float(v)) for v in dp]
+    den = max(f.denominator for f in fr)
+    if den.bit_length() > 1100:
+        return None
+    ints = [int(f * den) for f in fr]
+    return dict(a=a, b=b, ints=ints, shift=den.bit_length() - 1, level=lev,
+                top=float(np.max(np.abs(dp))))
 
 
 def check_quantile(X, Y, Z, xsel, ysel, par, levels):
@@ -900,9 +1140,23 @@ def meta_worker(args):
         counts["adversarial-compared"] = 1
     # definitions and reference estimators
     fails += check_statistics(case, obsA, mask)
+    sa = check_statistics_all(dsA, obsA, mask, flt["kind"] != "disabled")
+    if isinstance(sa, tuple):
+        fails += sa[0]
+        counts["stat-features"] = sa[1]
+    else:
+        fails += sa
     rf, rc = check_reference(case, obsA, mask)
     fails += rf
+    qreal = rc.pop("qreal", [])
     counts.update(rc)
+    for ax in (case["par"]["xax"], case["par"]["yax"]):
+        v = dataA[ax]
+        with np.errstate(all="ignore"):
+            if m and np.any(v[~mask] <= 0) and np.all(v[mask] > 0):
+                counts["log:nonpositive-only-on-excluded"] = 1
+            if np.any(v[mask] <= 0):
+                counts["log:nonpositive-on-selected"] = 1
     for k, v in obsA.items():
         if k.endswith("/maskok") and v == ("ok", False):
             fails.append("%s: the returned mask does not identify the "
@@ -911,7 +1165,8 @@ def meta_worker(args):
             counts.get("entry:" + k.split("/")[0], 0) + 1
         if v[0] == "exc":
             counts["exc:" + v[1]] = counts.get("exc:" + v[1], 0) + 1
-    return dict(fails=fails, counts=counts, nontrivial=(0 < m < n), m=m)
+    return dict(fails=fails, counts=counts, nontrivial=(0 < m < n), m=m,
+                qreal=qreal)
 
 
 # --------------------------------------------------------------------------
@@ -1433,7 +1688,44 @@ def meta_collect(run, cases, results):
             run.oracle_failure(c, desc, classify(c, r["fails"]))
 
 
+def pre_build(run):
+    """translator: Statistics.available_methods of the tree under test ->
+    coq/Gen/StatMethods.v (fails closed)"""
+    from .translators import stat_methods
+    try:
+        stat_methods.generate(common.REPO)
+    except Exception:
+        stat_methods.remove()
+        raise
+
+
+KNOWN_METHODS = ["Mean", "Median", "Mode", "SD", "Events", "%-gated",
+                 "Flow rate"]
+
+
+def registry_check(run):
+    """the registry at run time is the one the translator listed and the
+    oracle knows a definition for every method in it"""
+    from dclab import statistics
+    from .translators import stat_methods
+    reg = [(k, bool(v.req_feature))
+           for k, v in statistics.Statistics.available_methods.items()]
+    src = [(n, r) for n, r, _ in stat_methods.inventory(common.REPO)[
+        "methods"]]
+    if reg != src:
+        run.broken.append(("translator(C12)", "Statistics.available_methods "
+                           "at run time %r differs from the registrations in "
+                           "the source %r" % (reg, src)))
+    unknown = [n for n, _ in reg if n not in KNOWN_METHODS]
+    if unknown:
+        run.broken.append(("method-inventory(C12)", "statistics methods "
+                           "without a definition in the oracle: %r"
+                           % unknown))
+    run.count("registered-methods", len(reg))
+
+
 def run(run):
+    registry_check(run)
     corpus = load_corpus()
     run.count("corpus", len(corpus))
     n_meta, n_stats, n_fake, n_perc, n_quant = SIZES[
@@ -1510,6 +1802,22 @@ def run(run):
                 wres.append(None)
     retry_dead(run, meta_cases, results)
     meta_collect(run, meta_cases, results)
+    # quantile levels of real KDEs vs the model's exact percentile
+    qr_cases = []
+    for c, r in zip(meta_cases, results):
+        for rec in r.get("qreal", []):
+            qr_cases.append((c, rec))
+    qr_model = common.coq_map(
+        run.scratch, "c12qr", HEADER, "perc_flat",
+        ["(%d, %d, %s)" % (rec["a"], rec["b"], common.zlist(rec["ints"]))
+         for _, rec in qr_cases], shard=25)
+    for (c, rec), m in zip(qr_cases, qr_model):
+        run.corr_checked += 1
+        run.count("corr:quantile-real-kde")
+        want = float(fractions.Fraction(m[0], rec["b"] << rec["shift"]))
+        if not close(rec["level"], want, 1e-9, 1e-9 * rec["top"]):
+            run.mismatch(dict(kind="meta-quantile", key=rec["key"], case=c),
+                         want, rec["level"])
     retry_dead(run, warm_cases, wres, worker=warm_worker)
     for c, r in zip(warm_cases, wres):
         run.record_case(c, True, sample=False)
